@@ -60,7 +60,7 @@ def call_for(cfg, n, num_procs):
         kw = dict(test=cfg["test"], add_capacitance=cfg["cap"], add_inductance=cfg["ind"],
                   admittance={"Z": False, "Y": True, "auto": None}[cfg["repr"]],
                   num_RC=(max(2, min(n - 1, 8)) if cfg["numrc"] == "fixed" else 0),
-                  num_F_ext_evaluations={"neg": -6, "zero": 0, "pos": 6}[cfg["fext"]],
+                  num_F_ext_evaluations={"neg": -10, "zero": 0, "pos": 10}[cfg["fext"]],
                   rapid_F_ext_evaluations=cfg["rapid"], num_procs=num_procs, timeout=120)
         return (lambda: pyimpspec.perform_kramers_kronig_test(data, **kw)), {}
     if e == "zhit":
